@@ -330,9 +330,36 @@ def tfp_shape_trace():
             ev.append({"ev": "tfp_simulate", "auto": auto, "first_shapes": [], "second_shapes": [], "same_as_fresh": False,
                        "crash": f"{type(ex).__name__}: {ex}"[:200]})
     ev += support_events()
+    ev += broadcast_events()
     hdr = {"n": 1, "kind": ["v"], "inp": [[]], "init": [0], "sims": [], "factors": [], "plan": [{"kind": "v", "inp": []}],
            "value_shapes": [[]], "ops": []}
     return {"hdr": hdr, "ev": ev}
+
+
+def broadcast_events():
+    """Parameters that broadcast against the value (batch dimensions of size one: one location for five observations):
+    the draw keeps the shape of the current value and its entries are separate realisations."""
+    import tensorflow_probability.substrates.jax.distributions as tfd
+    ev = []
+    for auto in (True, False):
+        rec = {"ev": "broadcast_simulate", "auto": auto, "crash": "", "shapes": [], "distinct": []}
+        try:
+            x = lsl.Var(jnp.zeros(5, jnp.float32), lsl.Dist(tfd.Normal, loc=jnp.zeros(1, jnp.float32), scale=1.0), name="x")
+            col = lsl.Var(jnp.zeros((5, 1), jnp.float32), name="col")
+            w = lsl.Var(jnp.zeros((5, 3), jnp.float32), lsl.Dist(tfd.Normal, loc=col, scale=1.0), name="w")
+            z = lsl.Var(jnp.zeros((2, 5, 3), jnp.float32), lsl.Dist(tfd.Normal, loc=col, scale=jnp.ones((1, 3), jnp.float32)), name="z")
+            m = lsl.GraphBuilder().add(x, w, z).build_model()
+            m.auto_update = auto
+            m.simulate(jax.random.PRNGKey(4))
+            m.update()
+            for v in ("x", "w", "z"):
+                a = np.asarray(m.vars[v].value)
+                rec["shapes"].append(list(a.shape))
+                rec["distinct"].append(int(len(np.unique(a))))
+        except Exception as ex:  # noqa: BLE001
+            rec["crash"] = f"{type(ex).__name__}: {ex}"[:200]
+        ev.append(rec)
+    return ev
 
 
 def support_events():
